@@ -57,7 +57,7 @@ def run(ctx):
     ctx.require_events('plot:call', 'curve-point:checked', 'curve-point:truth-checked')
     ctx.require_regimes('mode:interp', 'mode:largest', 'mode:largest+smallest', 'mode:all', 'input:object', 'input:file', 'multi-aperture', 'single-aperture',
                         'cube:asc', 'cube:desc', 'selected>=2', 'beyond-table', 'filters:unsorted')
-    n_pk = 5 if ctx.quick else 30
+    n_pk = 5 if ctx.quick else 100
     for ip in range(n_pk):
         n_m = int(rng.integers(3, 8))
         multi = ip % 3 != 2
